@@ -305,6 +305,32 @@ static void choose_langs(G& g) {
 static Plan make_C13(u64 seed, int variant) {
     G g(seed); g.plan.prop = "C13";
     choose_langs(g);
+    if (variant < 584) {
+        // warm-up: every sequence of length 1..3 over a reduced alphabet of eight macro-operations
+        int len = variant < 8 ? 1 : variant < 72 ? 2 : 3, code = variant < 8 ? variant : variant < 72 ? variant - 8 : variant - 72;
+        g.plan.ntasks = g.ntasks = 1;
+        prologue(g, (int)g.rng.below(4), (int)g.rng.below(2), 0, 7, 1);
+        int gen = 0; unsigned m = 1;
+        for (int i = 0; i < len; ++i) {
+            int letter = code % 8; code /= 8;
+            bool l0 = g.live(0, 0);
+            switch (letter) {
+            case 0: if (l0) g.free_seed(0, 0); g.create(0, 0, g.rng.below(2), g.secret_kind(), {g.clock_reading()}); break;
+            case 1: if (!l0) g.create(0, 0, 1, 0, {g.clock_reading()});
+                    if (g.live(0, 0)) { if (g.live(0, 1)) g.free_seed(0, 1); AbsSeed sd = g.seeds[{0, 0}]; int li = g.pick_lang(); unsigned coin = g.pick_coin(); g.encode(0, 0, li, coin); g.decode(0, 1, g.valid_phrase(sd, li, coin, (int)g.rng.below(64)), coin, g.rng.chance(1, 2) ? -1 : li); } break;
+            case 2: if (!l0) g.create(0, 0, 1, 0, {g.clock_reading()});
+                    if (g.live(0, 0)) { if (g.live(0, 1)) g.free_seed(0, 1); g.store(0, 0); g.load_seed(0, 1, g.seeds[{0, 0}]); } break;
+            case 3: if (!l0) g.create(0, 0, 1, 0, {g.clock_reading()}); if (g.live(0, 0)) { g.crypt(0, 0, g.password()); g.store(0, 0); } break;
+            case 4: if (!l0) g.create(0, 0, 1, 0, {g.clock_reading()}); if (g.live(0, 0)) g.keygen(0, 0, g.pick_coin(), 32); if (g.live(0, 1)) g.keygen(0, 1, g.pick_coin(), 32); break;
+            case 5: if (g.live(0, 1)) g.free_seed(0, 1); else if (l0) g.free_seed(0, 0); else g.emit(OP_FREENULL, 0, 0); break;
+            case 6: m ^= 1; g.enable(0, m); break;
+            default: gen = (gen + 1) % 3; g.inject(gen, (unsigned)g.rng.below(8)); break;
+            }
+        }
+        if (g.live(0, 0)) { g.store(0, 0); g.emit(OP_GETB, 0, 0); }
+        if (g.live(0, 1)) { g.store(0, 1); g.emit(OP_ISENC, 0, 1); }
+        return g.plan;
+    }
     g.ntasks = 1 + (int)g.rng.below(3); g.plan.ntasks = g.ntasks;
     bool faults = (variant % 2) == 1;
     static const int rates[] = {5, 20, 50};
